@@ -214,6 +214,9 @@ func sizeItem(c *Comp) (LV, bool) {
 	if v, ok := kwLV(c, "auto"); ok {
 		return v, true
 	}
+	if c.Kind == KPercentage && numZero(c.Num) {
+		return s(zeroLen), true // 0% of the positioning area is a zero length
+	}
 	return lengthPctLV(c)
 }
 
@@ -265,8 +268,8 @@ func imageLV(c *Comp) (LV, bool) {
 	if kw(c) == "none" {
 		return s("none"), true
 	}
-	if u, ok := urlValue(c); ok {
-		return s("url:" + u), true
+	if _, ok := urlValue(c); ok {
+		return LV{Opaque: []Comp{*c}}, true
 	}
 	if c.Kind == KFunction && c.Closed && !isColorFunc(c) && !mathFuncs[lower(c.Val)] {
 		return LV{Opaque: []Comp{*c}}, true
